@@ -80,7 +80,8 @@ package p9p
 
 // ---------------------------------------------------------------- wire sizes (used by C02/C03/C10; proved against size9p under C01)
 
-//@ pure wireSize(f Fcall) int
+// (the encoded size of a Twalk depends on the names, i.e. on heap contents: the function reads the string heap)
+//@ pure wireSize(f Fcall) int reads E:string
 //@ axiom [wire] wireSize_range: forall f Fcall :: {wireSize(f)} 0 <= wireSize(f) && wireSize(f) < 4294967296
 //@ axiom [wire] wireSize_Twrite: forall f Fcall :: {wireSize(f)} typeis(f.Message, MessageTwrite) && len(f.Message.(MessageTwrite).Data) < 4294967296 - 19 ==> wireSize(f) == 19 + len(f.Message.(MessageTwrite).Data)
 //@ axiom [wire] wireSize_Tread: forall f Fcall :: {wireSize(f)} typeis(f.Message, MessageTread) ==> wireSize(f) == 19
@@ -91,9 +92,11 @@ package p9p
 //@ modifies nothing
 //@ ensures result == kindOf(self)
 
-//@ pure encFcall(f Fcall) Bytes
+// (what Marshal produces depends on the contents of data, name and qid slices: the function reads those heaps)
+//@ pure encFcall(f Fcall) Bytes reads E:uint8 E:string E:p9p.Qid
 //@ pure decOk(b Bytes) bool
 //@ pure decFcall(b Bytes) Fcall
+//@ axiom [wire] enc_version_heapfree: forall f Fcall :: {encFcall(f), otherheap(encFcall(f))} typeis(f.Message, MessageTversion) || typeis(f.Message, MessageRversion) ==> encFcall(f) == otherheap(encFcall(f)) && wireSize(f) == otherheap(wireSize(f))
 //@ axiom [wire] enc_len: forall f Fcall :: {encFcall(f)} blen(encFcall(f)) == wireSize(f)
 //@ axiom [wire] dec_size: forall b Bytes :: {decFcall(b)} decOk(b) ==> wireSize(decFcall(b)) <= blen(b)
 //@ axiom [wire] dec_twrite: forall b Bytes :: {decFcall(b)} decOk(b) && typeis(decFcall(b).Message, MessageTwrite) ==> 19 + len(decFcall(b).Message.(MessageTwrite).Data) <= blen(b)
@@ -110,7 +113,8 @@ package p9p
 //@ use wire bytes
 //@ modifies alloc, E:uint8
 //@ ensures preserved("E:uint8")
-//@ ensures typeis(v, *Fcall) && err == nil ==> bytes(result0) == encFcall(*v.(*Fcall)) && len(result0) == wireSize(*v.(*Fcall))
+// (Marshal reads the memory it is given: the result is the encoding in the heap of the call, not in the heap it leaves behind)
+//@ ensures typeis(v, *Fcall) && err == nil ==> bytes(result0) == old(encFcall(*v.(*Fcall))) && len(result0) == old(wireSize(*v.(*Fcall)))
 //@ ensures !typeis(err, overflowErr)
 // a directory entry (stat record) passed by value: verified for codec9p as (codec9p).Marshal#dir
 //@ ensures typeis(v, Dir) && repDir(v.(Dir)) ==> err == nil && bytes(result0) == encDir(v.(Dir))
@@ -169,7 +173,7 @@ package p9p
 //@ requires ctx != nil && ch != nil && ch.codec != nil && ch.conn != nil && ch.bwr != nil && fcall != nil && 0 <= ch.msize && ch.msize < 2147483648
 //@ let SMALL = (typeis(old(fcall.Message), MessageTwrite) ==> len(old(fcall.Message.(MessageTwrite).Data)) < 4294967296 - 23)
 //@ ensures caller_buffer: preserved("E:uint8") && ch.msize == old(ch.msize) && fcall.Type == old(fcall.Type) && fcall.Tag == old(fcall.Tag)
-//@ ensures one_frame: SMALL ==> (err == nil ==> out(ch.bwr) == bcat(old(out(ch.bwr)), bcat(le4(4 + wireSize(*fcall)), encFcall(*fcall))) && (4 + wireSize(*fcall) <= ch.msize || (typeis(M0, MessageTread) && ch.msize < 23)))
+//@ ensures one_frame: SMALL ==> (err == nil ==> out(ch.bwr) == bcat(old(out(ch.bwr)), bcat(le4(4 + inold(wireSize(*fcall))), inold(encFcall(*fcall)))) && (4 + wireSize(*fcall) <= ch.msize || (typeis(M0, MessageTread) && ch.msize < 23)))
 //@ ensures nothing_on_error: SMALL ==> (err != nil && !iofailed() ==> out(ch.bwr) == old(out(ch.bwr)))
 //@ ensures cancelled: SMALL ==> (old(cancelled(ctx)) ==> err != nil && out(ch.bwr) == old(out(ch.bwr)))
 //@ ensures overflow: SMALL ==> (typeis(err, overflowErr) ==> err.(overflowErr).size == S0 - ch.msize && S0 > ch.msize && fcall.Message == M0 && !(typeis(M0, MessageTwrite) && ch.msize >= 23) && !typeis(M0, MessageTread))
@@ -248,7 +252,8 @@ package p9p
 //@ requires ctx != nil && typeis(ch, *channel) && C != nil && C.codec != nil && C.conn != nil && C.brd != nil && C.bwr != nil && 24 <= C.msize && C.msize < 2147483648 && len(C.rdbuf) == C.msize
 //@ ensures inv: len(C.rdbuf) == C.msize && 0 <= C.msize
 //@ ensures never_more: C.msize <= M0
-//@ ensures proposal: err == nil ==> exists f Fcall :: {encFcall(f)} out(C.bwr) == bcat(old(out(C.bwr)), bcat(le4(4 + wireSize(f)), encFcall(f))) && f.Tag == NOTAG && typeis(f.Message, MessageTversion) && f.Message.(MessageTversion).MSize == M0
+// (the proposal is written before anything is read: its encoding is taken in the heap of the call's entry)
+//@ ensures proposal: err == nil ==> exists f Fcall :: {inold(encFcall(f))} out(C.bwr) == bcat(old(out(C.bwr)), bcat(le4(4 + inold(wireSize(f))), inold(encFcall(f)))) && f.Tag == NOTAG && typeis(f.Message, MessageTversion) && f.Message.(MessageTversion).MSize == M0
 //@ ensures adopted: err == nil ==> typeis(REP, MessageRversion) && C.msize == min(M0, REP.(MessageRversion).MSize)
 
 // ---------------------------------------------------------------- sfilesys.go (C08 C13 C14)
